@@ -55,7 +55,9 @@ def world_cfg(case):
         apps.append({"app_id": aid, "auth": kind == "auth", "acct": kind == "acct", "peers": peers,
                      "realms": realms, "kind": case.get("app_kind", "basic"),
                      "handler": case.get("handler", "answer")})
-    peers = [{"name": "peer1.example", "ip": ["10.1.1.1"]}, {"name": "peer2.example", "ip": ["10.1.1.2"]}]
+    # (peer3 is merely known to the node: its realm is served by no application and it is nobody's default peer)
+    peers = [{"name": "peer1.example", "ip": ["10.1.1.1"]}, {"name": "peer2.example", "ip": ["10.1.1.2"]},
+             {"name": "peer3.other.example", "ip": ["10.1.1.3"], "realm": "other.example"}]
     if case.get("sender_dir") == "out":
         # the node dials the sending peer, which may spell its own identity in another case in its CEA
         peers[0 if case["sender_host"] == "peer1.example" else 1].update(persistent=True, reconnect_wait=1000)
@@ -290,6 +292,8 @@ def evaluate(case) -> Result:
             res.classes.append("cross:thread-died")
         trivial = acc == {"deliver"} and len(lay["apps"]) == 1 and not case["removed"]
         res.nontrivial = not trivial
+        if case["realm"] == "other.example":
+            res.classes.append("realm:of-a-peer-without-application")
         res.classes += [f"expect:{'|'.join(sorted(acc))}", f"layout:{lay['name']}", f"removed:{min(len(case['removed']), 3)}",
                         f"handler:{handler}", f"app:{case.get('app_kind', 'basic')}"]
         res.sample = {"class": case["cls"], "removed": case["removed"], "realm": case["realm"], "app_id": case["app_id"],
@@ -429,7 +433,7 @@ def shard_main(shard, nshards, tier, scale):
     for k in classes[shard::nshards]:
         def xbody(spec, k=k):
             for sender in ("peer1.example", "peer2.example"):
-                for realm_ in ("example", "extra.example", "Roaming.Example"):
+                for realm_ in ("example", "extra.example", "Roaming.Example", "other.example"):
                     for aid_ in (4, 3):
                         case = {"cls": k.__name__, "spec": spec, "removed": [], "realm": realm_, "app_id": aid_,
                                 "sender_host": sender, "layout": 4}
@@ -448,7 +452,7 @@ def shard_main(shard, nshards, tier, scale):
         layout = draw(st.integers(0, len(LAYOUTS) - 1))
         ids = sorted({a[0] for a in LAYOUTS[layout]["apps"]})
         return {"cls": k.__name__, "spec": draw(full_spec_strategy(k)), "removed": removed,
-                "realm": draw(st.sampled_from(["example", "example", "extra.example", "elsewhere.example", "Roaming.Example"])),
+                "realm": draw(st.sampled_from(["example", "example", "extra.example", "elsewhere.example", "Roaming.Example", "other.example"])),
                 "app_id": draw(st.sampled_from(ids + [999])),
                 "sender_host": draw(st.sampled_from(["peer1.example", "peer2.example"])),
                 "layout": layout, "handler": draw(st.sampled_from(["answer", "answer", "raise"])),
@@ -475,7 +479,7 @@ def run(tier, scale=1.0):
     rec = Recorder(PID)
     for d in hyp.pool_run(shard_main, (tier, scale)):
         rec.merge(d)
-    required = {"layout:two-peers-extra-realms": 1, "with-earlier-requests": 1, "earlier-delivery-of-same-app-id": 1, "sender:overlapping-reconnect": 1, "t-flag:new-request": 1, "sender:awaiting-dwa": 1, "sender:outbound-respelled": 1, "layout:mixed-case-realm": 1, "expect:deliver": 1, "expect:5005": 1, "expect:3003": 1, "expect:3007": 1, "handler:raise": 1,
+    required = {"realm:of-a-peer-without-application": 1, "layout:two-peers-extra-realms": 1, "with-earlier-requests": 1, "earlier-delivery-of-same-app-id": 1, "sender:overlapping-reconnect": 1, "t-flag:new-request": 1, "sender:awaiting-dwa": 1, "sender:outbound-respelled": 1, "layout:mixed-case-realm": 1, "expect:deliver": 1, "expect:5005": 1, "expect:3003": 1, "expect:3007": 1, "handler:raise": 1,
                 "layout:same-id-two-peers": 1, "layout:three-apps": 1, "app:threading": 1, "removed:2": 1}
     return finish(rec, tier=tier, level="exploration", rule=RULE, assumptions=ASSUME, t0=t0,
                   required_classes=required,
